@@ -56,7 +56,7 @@ manifest = {
     ],
     "checks": checks,
     "not_applicable": na,
-    "notes": "All checks run uberjob from /repo/src (working tree). Exit 0 = held on everything explored (KNOWN-FINDING lines allowed), 1 = VIOLATION line with replay file, 2 = HARNESS-ERROR (nondeterminism, dead worker, timeout). VERIF_SEED, VERIF_JOBS, VERIF_BUDGET_S are honoured. Genuine defects found are listed in /verif/known_findings.json (F1-F6, all repaired by `fix:` commits in /repo; no entry has status `known` at present, so no check prints a KNOWN-FINDING line); self-tests: ./check selftest-determinism, ./check selftest-prims (primitive fidelity + file seam), ./check selftest-reach (scenario coverage against reach_baseline.json). Sensitivity: SENSITIVITY.md (243 seeded changes, 241 active), false-alarm screening: BENIGN.md (18 correct refactorings).",
+    "notes": "All checks run uberjob from /repo/src (working tree). Exit 0 = held on everything explored (KNOWN-FINDING lines allowed), 1 = VIOLATION line with replay file, 2 = HARNESS-ERROR (nondeterminism, dead worker, timeout). VERIF_SEED, VERIF_JOBS, VERIF_BUDGET_S are honoured. Genuine defects found are listed in /verif/known_findings.json (F1-F7, all repaired by `fix:` commits in /repo; no entry has status `known` at present, so no check prints a KNOWN-FINDING line); self-tests: ./check selftest-determinism, ./check selftest-prims (primitive fidelity + file seam), ./check selftest-reach (scenario coverage against reach_baseline.json). Sensitivity: SENSITIVITY.md (256 seeded changes, 254 active), false-alarm screening: BENIGN.md (18 correct refactorings).",
 }
 with open(os.path.join(os.path.dirname(os.path.dirname(os.path.abspath(__file__))), "MANIFEST.json"), "w") as f:
     json.dump(manifest, f, indent=1)
